@@ -333,6 +333,38 @@ def quantifier(I, name, n):
         if name == 'forall':
             return I.wrap_bool(z3.And(*ts)) if ts else True
         return I.wrap_bool(z3.Or(*ts)) if ts else False
+    if name == 'forall' and getattr(I, 'peel_quant', False) and getattr(I, 'qdepth', 0) == 0:
+        # preservation of a quantified invariant: forall [lo, hi) == forall [lo, hi-1) and (the last instance),
+        # so that the first conjunct is literally the loop hypothesis
+        I.peel_quant = False
+        try:
+            hi1 = I.wrap_int(I.rw(I.int_term(hi) - 1))
+            rest = quantifier_on(I, name, lam, lo, hi1)
+            last_guard = I.int_term(hi1) >= I.int_term(lo)
+            saved_pc = I.st.pc
+            saved_seen = I.facts_seen
+            I.st.pc = list(saved_pc) + [last_guard]
+            I.facts_seen = set(saved_seen)
+            n0 = len(I.st.pc)
+            try:
+                v = I.call_closure(Closure(lam, I.frame, '<q>'), [hi1], {})
+                bt = I.bool_term(v)
+                last = z3.BoolVal(bt) if isinstance(bt, bool) else bt
+                local = I.st.pc[n0:]
+            finally:
+                I.st.pc = saved_pc
+                I.facts_seen = saved_seen
+            if local:
+                last = z3.Implies(z3.And(*local), last)
+            rt = I.bool_term(rest)
+            rt = z3.BoolVal(rt) if isinstance(rt, bool) else rt
+            return I.wrap_bool(z3.And(rt, z3.Implies(last_guard, last)))
+        finally:
+            I.peel_quant = True
+    return quantifier_on(I, name, lam, lo, hi)
+
+
+def quantifier_on(I, name, lam, lo, hi):
     I.qcount = getattr(I, 'qcount', 0) + 1
     I.qdepth = getattr(I, 'qdepth', 0) + 1
     bv = z3.Int('q%d_%s' % (I.qdepth, lam.args.args[0].arg))
@@ -342,6 +374,8 @@ def quantifier(I, name, n):
     saved_seen = I.facts_seen
     I.st.pc = list(saved_pc)
     I.facts_seen = set(saved_seen)
+    # the body is evaluated under the domain of the bound variable
+    I.st.pc.append(z3.And(bv >= I.int_term(lo), bv < I.int_term(hi)))
     n0 = len(I.st.pc)
     try:
         v = I.call_closure(Closure(lam, I.frame, '<q>'), [SInt(bv)], {})
